@@ -39,3 +39,23 @@ Example C06_source_runs :
   (match go_newInternalConfig ex_ace ex_ip6 ex_psl ex_good with inl ic => go_newConfig ic = new_config ic | inr _ => False end) /\
   (match go_newInternalConfig ex_ace ex_ip6 ex_psl ex_bad with inl _ => False | inr e => flatten e = violations ex_ace ex_ip6 ex_psl ex_bad end).
 Proof. split; vm_compute; reflexivity. Qed.
+
+(* ---- the constructors and the Reconfigure(Config()) round trip over the translated methods of middleware.go ---- *)
+Require Import Model.MwRt Gen.MwSrc Proofs.MwSrcP Proofs.SrcXferP.
+
+Theorem C06_source_constructors_agree : forall ace ip6 psl c,
+  fst (go_NewMiddleware ace ip6 psl c) =
+  match go_newInternalConfig ace ip6 psl c with
+  | inl _ => Some (fst (go_Reconfigure ace ip6 psl zero_mw (Some c)))
+  | inr _ => None
+  end.
+Proof. exact go_constructors_agree. Qed.
+Print Assumptions C06_source_constructors_agree.
+
+Theorem C06_source_reconfigure_config_noop : forall ace ip6 psl c ic dbg, ip6_sane ip6 ->
+  go_newInternalConfig ace ip6 psl c = inl ic ->
+  let st := (Some ic, dbg) in
+  exists st', go_Reconfigure ace ip6 psl st (go_Config st) = (st', None) /\ snd st' = dbg /\
+              forall r pre, mw_serve st' r pre = mw_serve st r pre.
+Proof. exact go_reconfigure_config_noop. Qed.
+Print Assumptions C06_source_reconfigure_config_noop.
